@@ -543,6 +543,132 @@ pub const NUMBERS: [&str; 16] = [
     "99999999999999999999", "9223372036854775808", "1e999", "1e", "1e+", "1_", "1__2", "0x1F", "0b2", "1.2.3", "1.", "1..2", "1.e5", "00", "1_000_000", "1.5e-400",
 ];
 
+/// Literal kinds of the directed escape leg: (class name, opening text, closing text).
+pub const ESC_KINDS: [(&str, &str, &str); 9] = [
+    ("escape:str-dq", "\"", "\""),
+    ("escape:str-sq", "'", "'"),
+    ("escape:bytes-dq", "b\"", "\""),
+    ("escape:bytes-sq", "b'", "'"),
+    ("escape:fstr-dq", "f\"", "\""),
+    ("escape:fstr-sq", "f'", "'"),
+    ("escape:triple-dq", "\"\"\"", "\"\"\""),
+    ("escape:triple-sq", "'''", "'''"),
+    ("escape:fstr-interpolation", "f\"{", "}\""),
+];
+
+/// Escape introducers the lexer knows (plus the ones it does not: `\u`, line continuation, a bare backslash) and the
+/// f-string brace forms.
+pub const ESC_INTRO: [&str; 14] = ["\\x", "\\u", "\\u{", "\\0", "\\n", "\\\\", "\\\"", "\\'", "\\\n", "\\", "{", "}", "{{", "}}"];
+
+/// Following scalars: hex digit, hex letter, non-hex ASCII, 2-, 3-, 4-byte scalar, combining mark, the closing quote
+/// (`Q`), newline, end of file (`E`).
+pub const ESC_FOLLOW: [&str; 10] = ["4", "a", "z", "é", "€", "😀", "\u{301}", "Q", "\n", "E"];
+
+/// One input of the escape leg. `seq` indexes `ESC_FOLLOW`; placement 0 = file start, 1 = after code (and before more
+/// code), 2 = last thing in the file (no newline behind it).
+pub fn escape_input(kind: usize, intro: usize, seq: &[usize], placement: usize) -> (&'static str, String) {
+    let (class, open, close) = ESC_KINDS[kind % ESC_KINDS.len()];
+    let quote = &close[close.len() - 1..];
+    let mut lit = String::from(open);
+    lit.push_str(ESC_INTRO[intro % ESC_INTRO.len()]);
+    let mut eof = false;
+    for &i in seq {
+        match ESC_FOLLOW[i % ESC_FOLLOW.len()] {
+            "Q" => lit.push_str(quote),
+            "E" => {
+                eof = true;
+                break;
+            }
+            s => lit.push_str(s),
+        }
+    }
+    if !eof {
+        lit.push_str(close);
+    }
+    let text = match placement % 3 {
+        0 => {
+            if eof {
+                lit
+            } else {
+                format!("{lit}\n")
+            }
+        }
+        1 => {
+            if eof {
+                format!("def main() -> None:\n    x = {lit}")
+            } else {
+                format!("def main() -> None:\n    x = {lit}\n    println(\"done\")\n")
+            }
+        }
+        _ => format!("x = {lit}"),
+    };
+    (class, text)
+}
+
+/// The escape leg, exhaustive within its bounds: every literal kind x every introducer x every sequence of 0..=2
+/// following scalars x 3 placements, plus sequences of 3 after the multi-character introducers (`\x`, `\u`, `\u{`) in
+/// the middle placement; `full` = sequences of 3 everywhere. Duplicates (sequences cut by EOF) are removed.
+pub fn escape_cases(full: bool) -> Vec<(&'static str, String)> {
+    let mut out = Vec::new();
+    let mut seen = std::collections::HashSet::new();
+    let n = ESC_FOLLOW.len();
+    let mut seqs: Vec<Vec<usize>> = vec![vec![]];
+    for a in 0..n {
+        seqs.push(vec![a]);
+        for b in 0..n {
+            seqs.push(vec![a, b]);
+        }
+    }
+    let mut seqs3: Vec<Vec<usize>> = Vec::new();
+    for a in 0..n {
+        for b in 0..n {
+            for c in 0..n {
+                seqs3.push(vec![a, b, c]);
+            }
+        }
+    }
+    for kind in 0..ESC_KINDS.len() {
+        for intro in 0..ESC_INTRO.len() {
+            for placement in 0..3 {
+                for q in &seqs {
+                    let (c, t) = escape_input(kind, intro, q, placement);
+                    if seen.insert(util::hash_str(&t)) {
+                        out.push((c, t));
+                    }
+                }
+                if full || (intro < 3 && placement == 1) {
+                    for q in &seqs3 {
+                        let (c, t) = escape_input(kind, intro, q, placement);
+                        if seen.insert(util::hash_str(&t)) {
+                            out.push((c, t));
+                        }
+                    }
+                }
+            }
+        }
+    }
+    out
+}
+
+/// The same scalars (alone, after `x`, after `x4`) spliced right after every backslash of a seed text.
+pub fn backslash_splices(seed: &str) -> Vec<(&'static str, String)> {
+    let mut out = Vec::new();
+    for (p, _) in seed.char_indices().filter(|(_, c)| *c == '\\') {
+        let after = p + 1;
+        for f in ESC_FOLLOW {
+            for pre in ["", "x", "x4", "u{"] {
+                let t = match f {
+                    "E" => format!("{}{pre}", &seed[..after]),
+                    "Q" => format!("{}{pre}\"{}", &seed[..after], &seed[after..]),
+                    s => format!("{}{pre}{s}{}", &seed[..after], &seed[after..]),
+                };
+                out.push(("escape:seed-backslash-splice", t));
+            }
+        }
+    }
+    out
+}
+
 /// Token dictionary: every keyword / operator / punctuation spelling the registries know, plus layout characters.
 pub fn dictionary() -> Vec<String> {
     let mut v: Vec<String> = Vec::new();
@@ -559,6 +685,9 @@ pub fn dictionary() -> Vec<String> {
     }
     for p in incan_core::lang::punctuation::PUNCTUATION.iter() {
         v.push(p.canonical.to_string());
+    }
+    for extra in ["\\x", "\\x4", "\\u", "\\u{", "\\0", "\\\n", "b\"\\x", "b'\\x", "f\"{", "é", "€", "😀", "\u{301}", "\"\"\"", "'''"] {
+        v.push(extra.to_string());
     }
     for extra in ["\n", "\n    ", "\n        ", "\n\t", " ", "x", "self", "1", "2.5", "\"s\"", "f\"{x}\"", "b\"a\"", "#c", "\"\"\"", "println", "int", "str", "List", "Option", "Some", "Ok", "Err", "Result"] {
         v.push(extra.to_string());
@@ -595,7 +724,7 @@ pub fn mutate(seed: &str, class: u8, r: &[u16; 6], dict: &[String]) -> (&'static
         }
         v
     };
-    match class % 14 {
+    match class % 15 {
         0 if !real.is_empty() => {
             // token deletion (1..3 adjacent tokens)
             let i = at(r[0], real.len());
@@ -819,6 +948,20 @@ pub fn mutate(seed: &str, class: u8, r: &[u16; 6], dict: &[String]) -> (&'static
                 }
             };
             ("nesting", s)
+        }
+        14 => {
+            // escape shapes (see `escape_input`): literal kind x introducer x 0..3 following scalars, standalone or
+            // spliced into the seed at a token boundary
+            let nseq = r[2] as usize % 4;
+            let seq: Vec<usize> = (0..nseq).map(|k| (r[3 + k.min(2)] as usize >> (k * 3)) % ESC_FOLLOW.len()).collect();
+            if r[5] % 2 == 0 || real.is_empty() {
+                let (_, t) = escape_input(r[0] as usize, r[1] as usize, &seq, r[5] as usize / 2);
+                ("escape-shape", t)
+            } else {
+                let (_, lit) = escape_input(r[0] as usize, r[1] as usize, &seq, 2);
+                let t = real[at(r[4], real.len())];
+                ("escape-shape-in-seed", splice(t.span.start, t.span.end, lit.trim_start_matches("x = ")))
+            }
         }
         12 if !lines.is_empty() => {
             // line-level damage: delete / duplicate / move a line, join two lines
